@@ -677,8 +677,12 @@ class URL:
             if dest.path.startswith('/'):   # absolute path
                 new_path_parts = list(dest.path_parts)
             else:  # relative path
-                new_path_parts = list(self.path_parts[:-1]) \
-                               + list(dest.path_parts)
+                base_parts = list(self.path_parts[:-1])
+                if self.host and base_parts[:1] != ['']:
+                    # RFC 3986 5.2.3: under an authority the merged
+                    # path is rooted, even when the base path is empty
+                    base_parts.insert(0, '')
+                new_path_parts = base_parts + list(dest.path_parts)
         else:
             new_path_parts = list(self.path_parts)
             if not query_params:
